@@ -517,6 +517,47 @@ def eval_c14(item):
         except Exception:
             pass
         check_ids(f"add_pretasks {l}")
+
+    # ---- a copy (copyconfig) of a frozen configuration is a new, unsealed configuration: whatever is done to the copy - assignments,
+    # meta flag, pre-tasks - must leave the frozen original (values, pre-tasks, meta flag, identifier) as it was
+    from experimaestro import copyconfig
+    from experimaestro.core.objects import Config
+
+    def snap(o):
+        x = o.__xpm__
+        return ({k: (("cfg", id(v)) if isinstance(v, Config) else repr(v)) for k, v in x.values.items()},
+                [id(p) for p in x.pre_tasks], [id(p) for p in x.init_tasks], x.meta)
+
+    for l, o in sorted(objs.items()):
+        n = G["nodes"][l]
+        cls = SCHEMA["out"] if "output_of" in n else SCHEMA[n["cls"]]
+        before = snap(o)
+        try:
+            c = copyconfig(o)
+        except Exception as e:  # noqa
+            out["problems"].append({"kind": "copyconfig-raises", "label": l, "cls": cls["tid"], "error": f"{type(e).__name__}: {e}"})
+            continue
+        out["attempts"] += 1
+        ops = []
+        for f in cls["fields"]:
+            val = 5 if "output_of" in n else _valid_alt(G, B, l, f)
+            if isinstance(val, str) and val == "SKIP":
+                continue
+            ops.append((f"assign {f['name']}", lambda c=c, f=f, val=val: setattr(c, f["name"], val)))
+        ops.append(("setmeta", lambda c=c: setmeta(c, True)))
+        ops.append(("add_pretasks", lambda c=c: c.add_pretasks(U.PreT(k=9))))
+        ops.append(("add_pretasks again", lambda c=c: c.add_pretasks(U.PreT(k=7))))
+        for what, op in ops:
+            try:
+                op()
+            except Exception:  # noqa
+                pass    # (whether the copy accepts it is not the question here)
+            now = snap(o)
+            if now != before:
+                part = [name for name, a, b in zip(("values", "pre-tasks", "init-tasks", "meta"), before, now) if a != b]
+                out["problems"].append({"kind": "frozen-changed-through-copy", "label": l, "cls": cls["tid"], "op": what.split()[0], "part": part})
+                before = now
+            check_ids(f"copy of {l}: {what}")
     return out
 
 
